@@ -192,7 +192,7 @@ def run(chk, ctx):
     bad = []
     for k in keys:
         f = F.UnmarshalFacts(ctx, k, assume_type=1)
-        for callee, chain in f.it.calls:
+        for callee, chain, _seq in f.it.calls:
             name = callee.split(' ')[0]
             if name.endswith('.validate'):
                 nval += 1
@@ -200,7 +200,7 @@ def run(chk, ctx):
                     bad.append('%s via %s' % (name,
                                               '<-'.join(reversed(chain))))
     f0 = F.UnmarshalFacts(ctx, None)
-    for callee, chain in f0.it.calls:
+    for callee, chain, _seq in f0.it.calls:
         name = callee.split(' ')[0]
         if name.endswith('.validate'):
             nval += 1
